@@ -6,9 +6,10 @@ from vlib import Suite, zlist, zlit, coqlist, blit
 
 ID = "C10"
 READY = True
-RULE = ("histories: a generated machine (1-2 flippers over all wiring variants single/dual wound x EOS x software EOS "
+RULE = ("hist: a generated machine (1-2 flippers over all wiring variants single/dual wound x EOS x software EOS "
         "repulse x ball search, 0-2 autofire coils and 0-1 kickbacks with/without coil_pulse_delay and timeout "
-        "protection, shared switches, default or overridden control events) on the virtual platform, then 8-45 ops "
+        "protection, shared switches, default or overridden control events) on the virtual platform, 20% of them with "
+        "the platform's overwrite assertion switched off (FAST/OPP-like silent overwrite), then 8-45 ops "
         "from Enable/Disable/SwFlip/SwRelease/BallSearch/Ev(lifecycle and custom events)/SwOn/SwOff/Advance incl. "
         "hit bursts that trip the timeout protection and button/EOS sequences that trigger a software repulse; after "
         "EVERY op the platform rule table, device enabled flags, all coil states, PSU handlers, EOS-manager flags, "
@@ -16,38 +17,61 @@ RULE = ("histories: a generated machine (1-2 flippers over all wiring variants s
         "non-trivial = at least one op that re-enables/re-disables an already enabled/disabled device or a timeout "
         "trip or a lifecycle-off event while some coil is energised; distinct by case hash.  8% of the histories are "
         "the 'handover' class: two flippers on the same button and coil(s), never enabled together, one event "
-        "disables one and enables the other (handler priorities decide whether a rule is overwritten).  "
-        "game (oracle only): REAL games on smart_virtual (game mode, trough+launcher, the real tilt mode, 2 flippers, "
-        "2 autofires): Start/Advance/Tilt/TiltWarn/SlamTilt/tilt_event/Drain/service_mode_entered/end_game/sw_flip, "
+        "disables one and enables the other (handler priorities decide whether a rule is overwritten), half of them "
+        "on the overwriting platform (a wrong order is then a MISSING rule of an enabled flipper).  "
+        "game: REAL games on smart_virtual (game mode, trough+launcher, the real tilt mode, 2 flippers, 2 autofires): "
+        "Start/Advance/Tilt/TiltWarn/SlamTilt/tilt_event/Drain/end_game/sw_flip/switch hits, the real "
+        "ServiceController.start_service()/stop_service() (game stopped without ball_will_end, machine reset), "
         "with queue handlers that HOLD ball_starting / ball_ending so that tilts arrive before a ball is in play, "
-        "during ball ending and between balls; after every step: tilted or no ball in play or no game => no "
+        "during ball ending and between balls.  Correspondence: every lifecycle event the machine dispatched "
+        "(game_*/player_turn_*/ball_*/tilt/slam_tilt/tilt_clear/service_mode_*), in order, is fed to the lifecycle "
+        "automaton of coq/C10/Life.v composed with the device model; compared after EVERY event and step: trace "
+        "accepted, ball-in-play flag = (game and balls_in_play > 0), tilted flag = game.tilted, rule table, enabled "
+        "flags, coil states.  Oracle after every step: tilted or no ball in play or no game => no "
         "flipper/autofire rule, no enabled device, no energised flipper coil. non-trivial = a tilt was accepted or a "
         "queue was held")
 TRUSTED_BASE = [
     "Coq 8.16.1 kernel (coqc), vm_compute for evaluating the model in the correspondence run; no native_compute",
     "axioms: none (every Print Assumptions is 'Closed under the global context')",
-    "hand-written model coq/C10/Model.v tied to the working tree by correspondence: harness/props/c10.py drives real "
-    "Flipper/AutofireCoil/Kickback devices on a booted machine (virtual platform) and the model with the same ops",
+    "hand-written model coq/C10/Model.v (devices, platform controller, virtual platform) and coq/C10/Life.v (game "
+    "lifecycle automaton: event order of game.py, tilt/tilt_clear/slam_tilt of tilt.py, service start/stop) tied to the "
+    "working tree by correspondence: harness/props/c10.py drives real Flipper/AutofireCoil/Kickback devices on a booted "
+    "machine (suite hist) and real games (suite game) and the model with the same ops / the observed lifecycle events",
     "translator translate() in harness/props/c10.py: default enable/disable events of flippers:/autofire_coils:/"
-    "kickbacks: in mpf/config_spec.yaml -> coq/C10/gen/Wiring.v (fail-closed line parser)",
+    "kickbacks: in mpf/config_spec.yaml and the lifecycle event names (checked to be posted by game.py / tilt.py / "
+    "service_controller.py) -> coq/C10/gen/Wiring.v (fail-closed line parser)",
     "virtual platform is the observed hardware: VirtualHardwarePlatform.rules and VirtualDriver.state; a 6-line stub "
-    "for set_delayed_pulse_on_hit_rule is added to the platform instance by the harness (virtual.py has none)",
+    "for set_delayed_pulse_on_hit_rule is added to the platform instance by the harness (virtual.py has none); the "
+    "'overwriting platform' is the same object with _assert_rule_does_not_exist replaced by a no-op",
     "event dispatch order by handler priority (C01), DelayManager/asyncio timers (C13) and timed switch handlers "
     "(C03) are modelled, validated here only on the schedules generated",
+    "game suite: the lifecycle position of an event is the start of its dispatch, the device observation is taken by "
+    "the last handler of the event (or, when a handler holds the queue event, when the next lifecycle event starts / "
+    "the step ends); slam_tilt is observed together with the tilt event that the same call posts",
 ]
 ASSUMPTIONS = [
-    "well-formed configuration: the (switch, coil) keys of all rules of all devices are pairwise distinct (a coil "
+    "well-formed configuration [wf]: the (switch, coil) keys of all rules of all devices are pairwise distinct (a coil "
     "belongs to one device; a flipper's EOS switch differs from its button) - otherwise virtual.py's overwrite "
-    "assertion is the expected outcome; the 'handover' histories share keys between two flippers but never ask for "
-    "both to be enabled at once (outside the theorems' wf hypothesis, inside the model's executable domain)",
-    "game suite: all instants on the 1/8 s grid; observations are taken after the machine has run 125 ms without input (zero-duration transients "
-    "inside one event cascade are not observed)",
+    "assertion is the expected outcome; OR [swap_safe] (theorem handover_rules_equal_enabled_devices): devices that "
+    "share a key are flippers, every event enabling one of them disables the other, no direct enable() of them",
+    "coil theorems [wfc]: main and hold coils of all flippers are pairwise different drivers",
+    "lifecycle theorems: the device is [ball_scoped] (ball_will_end and service_mode_entered disable it, no lifecycle "
+    "event other than ball_started enables it - proved for the default wiring) and outside a ball nothing from "
+    "outside the game asks it to enable (no enable() call, no custom enable event); a game mode stopped by anything "
+    "other than its own end or service mode is not modelled",
+    "tilt: tilt_in_ball_ends_ball assumes tilts accepted while Game._run_ball runs a ball; without it the statement is "
+    "refuted (tilt_between_balls_sticks_refuted = known finding tilt-accepted-between-balls-sticks)",
+    "game suite: all instants on the 1/8 s grid; observations are taken after every lifecycle event and after the "
+    "machine has run 125 ms without input; game.balls_in_play drops a moment before ball_will_end is posted: at a "
+    "tilt/tilt_clear dispatched in that window the ball-in-play flag is not compared",
     "use_eos implies an eos_switch; platform supports every rule kind used (delayed pulse stubbed on virtual)",
     "ops happen on whole seconds and every configured duration has a distinct non-zero 125 ms residue, so no two "
     "timers and no timer and op coincide (asyncio gives no order for equal deadlines)",
     "cases in which a software EOS manager is created while the EOS switch has already been closed for longer than "
     "eos_active_ms_before_repulse are run and checked by the oracle but not fed to the model (that catch-up branch of "
     "add_switch_handler_obj is C03's recorded ms/seconds defect)",
+    "ball search: the model's BallSearch op invokes one registered callback at an arbitrary moment (a superset of what "
+    "BallSearch._run can do to the devices); the phase/iteration scheduler of ball_search.py itself is not modelled",
 ]
 
 KINDS = {"pulse_on_hit": 0, "pulse_on_hit_and_enable_and_release": 1, "pulse_on_hit_and_release": 2,
@@ -103,6 +127,30 @@ def spec_defaults(repo):
     return res
 
 
+# lifecycle events of coq/C10/Life.v and the source file that must post them (fail-closed: a renamed or removed event
+# stops the run instead of silently leaving the automaton with a name nobody posts)
+LIFE_SOURCES = [
+    ("mpf/modes/game/code/game.py",
+     ["game_will_start", "game_starting", "game_started", "player_turn_will_start", "player_turn_starting",
+      "player_turn_started", "ball_will_start", "ball_starting", "ball_started", "ball_will_end", "ball_ending",
+      "ball_ended", "player_turn_will_end", "player_turn_ending", "player_turn_ended", "game_will_end", "game_ending",
+      "game_ended"]),
+    ("mpf/modes/tilt/code/tilt.py", ["tilt", "slam_tilt", "tilt_clear"]),
+    ("mpf/core/service_controller.py", ["service_mode_entered", "service_mode_exited"]),
+]
+LIFE_EVENTS = [e for _, evs in LIFE_SOURCES for e in evs]
+
+
+def lifecycle_events(repo):
+    for rel, evs in LIFE_SOURCES:
+        src = open(os.path.join(repo, rel)).read()
+        for e in evs:
+            if not re.search(r"\.post(?:_queue|_relay|_boolean)?(?:_async)?\(\s*['\"]%s['\"]" % re.escape(e), src):
+                raise ValueError("translate:%s: no events.post*('%s') found; the lifecycle automaton of Life.v names it"
+                                 % (rel, e))
+    return LIFE_EVENTS
+
+
 def translate(repo, gendir):
     d = spec_defaults(repo)
     os.makedirs(gendir, exist_ok=True)
@@ -114,7 +162,7 @@ def translate(repo, gendir):
         lines.append("Definition %s_enable_events : list (list Z) := %s." % (pre, coqlist(zlist(e.encode()) for e in en)))
         lines.append("(* %s: disable_events = %s *)" % (sec, ", ".join(dis) or "None"))
         lines.append("Definition %s_disable_events : list (list Z) := %s." % (pre, coqlist(zlist(e.encode()) for e in dis)))
-    for e in ("ball_started", "ball_will_end", "service_mode_entered"):
+    for e in lifecycle_events(repo):
         lines.append("Definition ev_%s : list Z := %s." % (e, zlist(e.encode())))
     txt = "\n".join(lines) + "\n"
     p = os.path.join(gendir, "Wiring.v")
@@ -243,8 +291,14 @@ def gen_ops(rng, devs, tier):
                 ops.append(["SwOff", d["eos"]])
                 ops.append(rng.choice([["Ev", "ball_will_end"], ["Disable", f], ["SwOff", d["sw"]],
                                        ["Ev", "service_mode_entered"], ["Advance", 1]]))
-        else:
+        elif r < 0.95:
             ops.append(["Advance", rng.choice([1, 1, 1, 2, 3, 5])])
+        elif r < 0.985:
+            # the real ball search scheduler runs over the registered devices while the history goes on
+            ops.append(["BsStart"])
+            ops.append(["Advance", rng.choice([1, 1, 2, 3])])
+        else:
+            ops.append(["BsStop"])
     return ops
 
 
@@ -295,9 +349,13 @@ def gen_handover(rng, tier):
 
 def gen_hist(rng, tier, i):
     if rng.random() < 0.08:
-        return gen_handover(rng, tier)
+        c = gen_handover(rng, tier)
+        # half of the handovers on a platform that overwrites silently (FAST/OPP-like): a rule written before the old
+        # one is cleared is then not an exception but a MISSING rule of an enabled flipper
+        c["plat"] = "overwrite" if rng.random() < 0.5 else "assert"
+        return c
     devs = gen_config(rng)
-    return {"devs": devs, "ops": gen_ops(rng, devs, tier)}
+    return {"devs": devs, "ops": gen_ops(rng, devs, tier), "plat": "overwrite" if rng.random() < 0.2 else "assert"}
 
 
 # ------------------------------------------------------------------------------------------------
@@ -372,8 +430,11 @@ def coil_owner(devs):
 class Probe:
     """Recording wrapper around the booted machine: platform calls, rule table, coil states, handlers."""
 
-    def __init__(self, rig, devs):
+    def __init__(self, rig, devs, overwrite=False):
         self.rig, self.devs = rig, devs
+        if overwrite:
+            # recording platform with the semantics of real controllers: set_*_rule replaces whatever is there
+            rig.machine.default_platform._assert_rule_does_not_exist = lambda switch, driver: None
         self.m = rig.machine
         self.p = self.m.default_platform
         self.log = []
@@ -417,6 +478,38 @@ class Probe:
             return orig_clear(switch, coil)
         p.clear_hw_rule = clr
 
+        # the REAL ball search scheduler (mpf/core/ball_search.py: phases, iterations, interval) drives the devices
+        # through the callbacks they registered; every invocation is recorded with an observation before and after it
+        self.sub = []
+        for pf in self.m.playfields.values():
+            pf.config['ball_search_interval'] = 131              # ms; 131 k is never on the 125 ms grid of the timers
+            pf.config['ball_search_wait_after_iteration'] = 1310
+            pf.config['ball_search_phase_1_searches'] = 2
+            pf.config['ball_search_phase_2_searches'] = 1
+            pf.config['ball_search_phase_3_searches'] = 0
+            pf.ball_search.callbacks = [cb._replace(callback=self.wrap_bs(cb)) for cb in pf.ball_search.callbacks]
+
+    def wrap_bs(self, cb):
+        probe = self
+
+        def call(phase, iteration):
+            if not probe.in_scheduler:
+                return cb.callback(phase, iteration)
+            pre = probe.observe()
+            probe.log = []
+            res = cb.callback(phase, iteration)
+            probe.settle_now()
+            post = probe.observe()
+            probe.log = []
+            probe.sub.append({"dev": int(cb.name[1:]), "t": int(round(probe.rig.now() * 1000)), "pre": pre, "post": post})
+            return res
+        return call
+
+    in_scheduler = True
+
+    def settle_now(self):
+        pass
+
     def caller(self, coil):
         """index of the device whose method is making the platform call (two devices may share a coil)"""
         import sys
@@ -457,10 +550,22 @@ class Probe:
                 self.device(op[1]).sw_release()
             elif k == "BallSearch":
                 name = "d%d" % op[1]
+                self.in_scheduler = False
+                try:
+                    for pf in self.m.playfields.values():
+                        for cb in list(pf.ball_search.callbacks):
+                            if cb.name == name:
+                                cb.callback(1, 1)
+                finally:
+                    self.in_scheduler = True
+            elif k == "BsStart":
                 for pf in self.m.playfields.values():
-                    for cb in list(pf.ball_search.callbacks):
-                        if cb.name == name:
-                            cb.callback(1, 1)
+                    if pf.ball_search.callbacks:
+                        pf.ball_search.enabled = True
+                        pf.ball_search.start()
+            elif k == "BsStop":
+                for pf in self.m.playfields.values():
+                    pf.ball_search.disable()
             elif k == "Ev":
                 self.m.events.post(op[1])
             elif k == "SwOn":
@@ -530,14 +635,17 @@ def run_hist(case):
         rig.advance(0.999)
         if rig.now() != 1.0:
             return {"boot_error": "clock not on the grid: %r" % rig.now(), "steps": []}
-        pr = Probe(rig, devs)
+        pr = Probe(rig, devs, overwrite=case.get("plat") == "overwrite")
         steps = []
         excluded = None
         for op in case["ops"]:
             pr.log = []
             before = [pr.managers(i)[:1] for i in range(len(devs))]
+            pr.sub = []
+            t0 = int(round(rig.now() * 1000))
             pr.do(op)
             o = pr.observe()
+            o["sub"], o["t0"], o["t1"] = list(pr.sub), t0, int(round(rig.now() * 1000))
             steps.append(o)
             for i, d in enumerate(devs):
                 ms = pr.managers(i)[:1]
@@ -552,6 +660,10 @@ def run_hist(case):
             out["exc"] = getattr(pr, "exc", "?")
         return out
     finally:
+        try:
+            pr.in_scheduler = False        # timers that fire during tearDown are not part of the history
+        except NameError:
+            pass
         rig.stop()
 
 
@@ -589,17 +701,42 @@ def coq_op(op):
     return "(%s %s)" % (k, zlit(op[1]))
 
 
+def coq_obs(s):
+    return "(%s, %s)" % (coqlist(zlist(r) for r in s["rows"]), coqlist(zlist(e) for e in s["log"]))
+
+
 def coq_hist(case, out):
+    """One model op per implementation op, except that an op during which the real ball search scheduler invoked device
+    callbacks is split at those instants: AdvanceMs up to the callback (expected: the observation taken at callback
+    entry), BallSearch d (expected: the observation after it), ..., and the rest of the op."""
     if out.get("boot_error") or out.get("excluded"):
         return None
-    n = len(out["steps"])
-    inp = "(%s, %s)" % (coqlist(coq_dev(d) for d in case["devs"]), coqlist(coq_op(o) for o in case["ops"][:n]))
-    exp = coqlist("(%s, %s)" % (coqlist(zlist(r) for r in s["rows"]), coqlist(zlist(e) for e in s["log"]))
-                  for s in out["steps"])
-    return "(%s, %s)" % (inp, exp)
+    ops, exp = [], []
+    for op, s in zip(case["ops"], out["steps"]):
+        sub = s.get("sub") or []
+        if op[0] in ("BsStart", "BsStop") or sub:
+            if op[0] not in ("BsStart", "BsStop", "Advance"):
+                return None          # the scheduler ran inside another kind of op: not expected
+            now = s["t0"]
+            for c in sub:
+                if c["t"] < now:
+                    return None
+                ops.append("(AdvanceMs %d)" % (c["t"] - now))
+                exp.append(coq_obs(c["pre"]))
+                now = c["t"]
+                ops.append("(BallSearch %d%%nat)" % c["dev"])
+                exp.append(coq_obs(c["post"]))
+            ops.append("(AdvanceMs %d)" % (s["t1"] - now))
+            exp.append(coq_obs(s))
+        else:
+            ops.append(coq_op(op))
+            exp.append(coq_obs(s))
+    inp = "((%s, %s), %s)" % (blit(case.get("plat") == "overwrite"), coqlist(coq_dev(d) for d in case["devs"]),
+                              coqlist(ops))
+    return "(%s, %s)" % (inp, coqlist(exp))
 
 
-HDR = "From C10 Require Import Model.\nDefinition run := c10_run.\nDefinition out_eqb := c10_out_eqb.\n"
+HDR = "From C10 Require Import Model.\nDefinition run := c10_run_p.\nDefinition out_eqb := c10_out_eqb.\n"
 
 
 # ------------------------------------------------------------------------------------------------
@@ -647,7 +784,14 @@ def oracle_hist(case, out):
         return [{"sig": "machine-does-not-boot", "what": out["boot_error"]}]
     coils = all_coils(devs)
     quiet = {}      # device -> op index since which it must stay without rules (disabled by lifecycle/Disable)
+    # observations taken around the callbacks of the real ball search scheduler are judged like those after an op
+    seq = []
     for n, (op, st) in enumerate(zip(case["ops"], out["steps"])):
+        for c in st.get("sub") or []:
+            seq.append((n, ["BsCallback-before", c["dev"]], c["pre"], None))
+            seq.append((n, ["BsCallback", c["dev"]], c["post"], None))
+        seq.append((n, op, st, out["steps"][n - 1] if n > 0 else None))
+    for n, op, st, prev_st in seq:
         table, enabled, cst, psu, mg, flipped, reen, err = st["rows"]
         trip = [tuple(table[j:j + 3]) for j in range(0, len(table), 3)]
         if err[0]:
@@ -672,7 +816,7 @@ def oracle_hist(case, out):
             fails.append({"sig": "aux-handler-unbalanced",
                           "what": "after op %d %r %d switch handlers of a stopped EOS manager remain" % (n, op, st["stale"])})
         # enable idempotent / disable removes all
-        if op[0] == "Enable" and n > 0 and out["steps"][n - 1]["rows"][1][op[1]] and st["log"]:
+        if op[0] == "Enable" and prev_st is not None and prev_st["rows"][1][op[1]] and st["log"]:
             fails.append({"sig": "enable-not-idempotent", "what": "op %d: enable of an enabled device wrote %r" % (n, st["log"])})
         if op[0] == "Enable" and not enabled[op[1]]:
             fails.append({"sig": "enable-no-effect", "what": "op %d: device not enabled after enable()" % n})
@@ -717,15 +861,15 @@ def oracle_hist(case, out):
 def shrink_hist(case):
     ops = case["ops"]
     for i in range(len(ops)):
-        yield {"devs": case["devs"], "ops": ops[:i] + ops[i + 1:]}
+        yield dict(case, ops=ops[:i] + ops[i + 1:])
     devs = case["devs"]
     for i in range(len(devs)):
         if len(devs) > 1 and not any(o[0] in ("Enable", "Disable", "SwFlip", "SwRelease", "BallSearch") and o[1] >= i
                                      for o in ops):
-            yield {"devs": devs[:i] + devs[i + 1:], "ops": ops}
+            yield dict(case, devs=devs[:i] + devs[i + 1:])
     for i, o in enumerate(ops):
         if o[0] == "Advance" and o[1] > 1:
-            yield {"devs": devs, "ops": ops[:i] + [["Advance", o[1] - 1]] + ops[i + 1:]}
+            yield dict(case, ops=ops[:i] + [["Advance", o[1] - 1]] + ops[i + 1:])
 
 
 def nontrivial_hist(case, out):
@@ -750,7 +894,8 @@ def describe_hist(case):
     if len(case["devs"]) > 1 and case["devs"][0].get("en_ev") == ["ev_a"] and case["devs"][1].get("en_ev") == ["ev_b"] \
             and case["devs"][0]["coil"] == case["devs"][1]["coil"]:
         ks = "handover-" + ks
-    return "devs=%s ops=%s" % (ks, "<=15" if len(case["ops"]) <= 15 else "<=30" if len(case["ops"]) <= 30 else ">30")
+    return "devs=%s ops=%s plat=%s" % (ks, "<=15" if len(case["ops"]) <= 15 else "<=30" if len(case["ops"]) <= 30
+                                       else ">30", case.get("plat", "assert"))
 
 
 # ------------------------------------------------------------------------------------------------
@@ -828,6 +973,10 @@ def gen_game(rng, tier, i):
             ops.append(["Release"])
         elif r < 0.87:
             ops.append(["Service"])
+            if rng.random() < 0.7:
+                # what a game that (wrongly) survived would do in service mode: end its ball and start the next one
+                ops += [["Advance", rng.choice([0.25, 1, 3])], rng.choice([["Start"], ["Tilt"], ["Drain"], ["Drain"]]),
+                        ["Advance", rng.choice([1, 12, 12])], ["ServiceExit"], ["Advance", rng.choice([1, 3])]]
         elif r < 0.90:
             ops.append(["EndGame"])
         elif r < 0.925:
@@ -871,6 +1020,76 @@ def run_game(case):
             return rec
         for ev in GAME_EVENTS:
             m.events.add_handler(ev, mk(ev), priority=100000)
+
+        # correspondence with coq/C10/Life.v: every lifecycle event in the order the machine dispatched it, with a
+        # snapshot taken by the LAST handler of that event (after every device handler ran)
+        sw_id = {m.switches[n].hw_switch: i for n, i in GAME_SW.items()}
+        co_id = {m.coils[n].hw_driver: i for n, i in GAME_COIL.items()}
+        trace = []
+
+        def snap(raw=False):
+            g = m.game
+            if g is not None and (g.stopping or not g.active) and not raw:
+                g = None          # the game mode is being stopped (service mode): machine.game is dropped a few events later
+            tab = sorted((sw_id.get(k2[0], 99), co_id[k2[1]], KINDS.get(v2, 9)) for k2, v2 in p.rules.items()
+                         if k2[1] in co_id)
+            cs = []
+            for cn in GAME_COIL_ORDER:
+                s0 = m.coils[cn].hw_driver.state
+                cs.append(0 if s0 == "disabled" else 1 if s0 == "enabled" else 2 if s0.startswith("pulsed") else 3)
+            return {"t": int(round(rig.now() * 1000)), "inball": 1 if (g and g.balls_in_play > 0) else 0,
+                    "tilted": 1 if (g and g.tilted) else 0,
+                    "endreq": 1 if (g and g._end_ball_event is not None and g._end_ball_event.is_set()) else 0,
+                    "table": [x for r in tab for x in r],
+                    "en": [1 if d._enabled else 0 for d in (m.flippers["f_test"], m.flippers["f_two"],
+                                                            m.autofire_coils["ac_pop"], m.autofire_coils["ac_sling"])],
+                    "coils": cs}
+
+        pending = []
+
+        announced = {"tilted": 0}     # game.tilted as of the last dispatched event that announces a change of it
+
+        def fill(o=None):
+            for e in pending:
+                e[1] = dict(o or snap(), t=e[1]["t"], inball=e[1]["inball"], tilted=e[1]["tilted"], endreq=e[1]["endreq"])
+            del pending[:]
+
+        def mkfirst(ev):
+            # position of the event in the trace, and the game flags = start of its dispatch (the code changes
+            # game.tilted / balls_in_play BEFORE it posts the event that announces the change, and e.g. the tilt mode's
+            # ball_ending handler may clear game.tilted again while ball_ending is still being dispatched)
+            def first(**kwargs):
+                fill()
+                service_ev = ev in ("service_mode_entered", "service_mode_exited")
+                # start_service() marks the game as stopping BEFORE service_mode_entered is dispatched; a game / tilt
+                # event that was already queued and is dispatched in between still sees the old game object
+                o = snap(raw=not service_ev)
+                if m.game is None and not service_ev:
+                    o["inball"], o["tilted"], o["endreq"] = 2, 2, 1      # game object already dropped: not compared
+                tl = o["tilted"]
+                if ev in ("tilt", "tilt_clear", "game_will_start", "service_mode_entered", "service_mode_exited"):
+                    announced["tilted"] = 0 if tl == 2 else tl
+                elif ev == "game_ended":
+                    tl = announced["tilted"] = 0     # the game object is dropped right after; Life.v clears the flags
+                    o["endreq"] = 0
+                elif tl != announced["tilted"] or tl == 2:
+                    tl = 2            # tilt() / _tilt_done() ran, its event is still queued behind this one
+                e = [ev, {"t": o["t"], "inball": 2 if ev in ("tilt", "tilt_clear") else o["inball"], "tilted": tl,
+                          "endreq": o["endreq"]}]
+                trace.append(e)
+                pending.append(e)
+            return first
+
+        def mklast(ev):
+            # observation = after its last handler (a handler that holds a queue event stops the dispatch: then the
+            # observation is taken when the next lifecycle event starts or the step ends, whichever is first)
+            def last(**kwargs):
+                if pending and pending[-1][0] == ev:
+                    fill()
+            return last
+        for ev in LIFE_EVENTS:
+            m.events.add_handler(ev, mkfirst(ev), priority=1000001)
+            m.events.add_handler(ev, mklast(ev), priority=-1000000)
 
         def mkhold(ev):
             def hold(queue, **kwargs):
@@ -922,7 +1141,17 @@ def run_game(case):
                     for q in qs:
                         q.clear()
                 elif k == "Service":
-                    m.events.post("service_mode_entered")
+                    # the real thing: ServiceController.start_service() stops every mode incl. the game (no
+                    # ball_will_end) and then posts service_mode_entered
+                    if not m.service.is_in_service():
+                        m.service.start_service()
+                    else:
+                        skipped = True
+                elif k == "ServiceExit":
+                    if m.service.is_in_service():
+                        rig.loop.run_until_complete(m.service.stop_service())
+                    else:
+                        skipped = True
                 elif k == "EndGame":
                     if m.game:
                         m.game.end_game()
@@ -938,13 +1167,18 @@ def run_game(case):
             if rig.exception() is not None and exc is None:
                 exc = repr(rig.exception())[:300]
             g = m.game
+            end = snap()
+            fill(end)
+            evs, trace[:] = list(trace), []
             steps.append({
+                "evs": evs, "end": end,
                 "game": 1 if g else 0, "tilted": 1 if (g and g.tilted) else 0, "slam": 1 if (g and g.slam_tilted) else 0,
                 "bip": g.balls_in_play if g else 0, "ending": 1 if (g and g.ending) else 0,
                 "ball": (g.player.ball if (g and g.player) else 0),
                 "rules": sorted(k2[1].number for k2 in p.rules if k2[1] in fa_coils),
                 "held_coils": [c for c in flip_coils if m.coils[c].hw_driver.state == "enabled"],
                 "enabled": sorted(n for coll in (m.flippers, m.autofire_coils) for n, d in coll.items() if d._enabled),
+                "service": 1 if m.service.is_in_service() else 0,
                 "phase_before": before, "phase": st["phase"], "skipped": skipped, "nheld": len(st["held"]),
                 "pf": m.playfield.balls})
             if exc:
@@ -953,6 +1187,75 @@ def run_game(case):
         return {"steps": steps}
     finally:
         rig.stop()
+
+
+GAME_SW = {"s_flipper": 1, "s_flipper2": 2, "s_eos2": 3, "s_pop": 4, "s_sling": 5}
+GAME_COIL = {"c_flipper": 1, "c_f2m": 2, "c_f2h": 3, "c_pop": 4, "c_sling": 5}
+GAME_COIL_ORDER = ["c_flipper", "c_f2m", "c_f2h", "c_pop", "c_sling"]
+LEV_CTOR = {"tilt": "Tilt", "slam_tilt": "SlamTilt", "tilt_clear": "TiltClear", "service_mode_entered": "ServiceEntered",
+            "service_mode_exited": "ServiceExited"}
+for _e in GAME_EVENTS:
+    LEV_CTOR[_e] = "".join(w.capitalize() for w in _e.replace("player_turn", "turn").split("_"))
+
+
+def game_devs(v):
+    """the four rule-owning devices of game_config() in the format of the hist suite (input of the Coq model)"""
+    base = {"en_ev": None, "dis_ev": None, "flip_ev": [], "rel_ev": []}
+    f1 = dict(base, kind="f", sw=1, coil=1, hold=None, eos=None, use_eos=False, repulse=False, debounce=0, bs=True,
+              bs_hold=1000)
+    f2 = dict(base, kind="f", sw=2, coil=2, hold=3, eos=None, use_eos=False, repulse=False, debounce=0, bs=True,
+              bs_hold=1000)
+    if v["eos"]:
+        f2.update(eos=3, use_eos=True, repulse=True, debounce=250)
+    a1 = dict(base, kind="a", sw=4, coil=4, delay=0, bs=True, watch=0, maxhits=0, distime=0)
+    a2 = dict(base, kind="a", sw=5, coil=5, delay=0, bs=True, watch=1000, maxhits=2, distime=750)
+    return [f1, f2, a1, a2]
+
+
+def coq_game(case, out):
+    """input: the devices + per observation the items (clock advance, operation from outside, lifecycle event);
+    expected: [accepted; ball in play; tilted] and table / enabled / coils after every lifecycle event and every step"""
+    if out.get("boot_error"):
+        return None
+    groups, exp = [], []
+    last_t = [None]
+
+    def adv(o):
+        t0 = last_t[0]
+        if t0 is None or o["t"] > t0:
+            last_t[0] = o["t"]
+        return [] if t0 is None or o["t"] <= t0 else ["(LOp (AdvanceMs %d))" % (o["t"] - t0)]
+
+    def obs(o):
+        return "(%s, %s)" % (zlist([1, o["inball"], o["tilted"], o["endreq"]]), coqlist([zlist(o["table"]), zlist(o["en"]),
+                                                                           zlist(o["coils"])]))
+    for op, s in zip(case["ops"], out["steps"]):
+        if "evs" not in s:
+            return None
+        pre = []
+        if not s.get("skipped"):
+            if op[0] == "Flip":
+                pre = ["(LOp (SwFlip %d%%nat))" % {"f_test": 0, "f_two": 1}[op[1]]]
+            elif op[0] == "Hit" and op[1] in GAME_SW:
+                pre = ["(LOp (SwOn %d))" % GAME_SW[op[1]], "(LOp (SwOff %d))" % GAME_SW[op[1]]]
+        for ev, o in s["evs"]:
+            if ev == "slam_tilt":
+                # Tilt.slam_tilt() posts slam_tilt and calls tilt() (game.tilted, event tilt) in one go: the flags are
+                # observed together with the next item
+                pre = pre + adv(o) + ["(LEv SlamTilt)"]
+                continue
+            groups.append(coqlist(pre + adv(o) + ["(LEv %s)" % LEV_CTOR[ev]]))
+            pre = []
+            exp.append(obs(o))
+        groups.append(coqlist(pre + adv(s["end"])))
+        exp.append(obs(s["end"]))
+        if s.get("exc"):
+            break
+    return "((%s, %s), %s)" % (coqlist(coq_dev(d) for d in game_devs(case["v"])), coqlist(groups), coqlist(exp))
+
+
+HDR_GAME = ("From C10 Require Import Model Life.\nDefinition run := c10_game_run.\n"
+            "Definition out_eqb := c10_game_out_eqb.\n")
 
 
 def oracle_game(case, out):
@@ -977,8 +1280,8 @@ def oracle_game(case, out):
             why = "the game is tilted"
         elif s["bip"] == 0:
             why = "no ball is in play"
-        elif op[0] == "Service":
-            why = "service mode was entered"
+        elif s.get("service") or (op[0] == "Service" and not s.get("skipped")):
+            why = "the machine is in service mode"
         if why is None:
             continue
         if s["rules"] or s["held_coils"] or s["enabled"]:
@@ -996,6 +1299,8 @@ def oracle_game(case, out):
                 sig = "flipper-coil-energised-outside-ball"
             elif s["tilted"]:
                 sig = "rules-while-tilted"
+            elif s.get("service"):
+                sig = "rules-in-service-mode"
             elif not s["game"]:
                 sig = "rules-without-game"
             else:
@@ -1012,7 +1317,7 @@ def oracle_game(case, out):
 def shrink_game(case):
     ops = case["ops"]
     for i in range(len(ops)):
-        yield {"v": case["v"], "ops": ops[:i] + ops[i + 1:]}
+        yield dict(case, ops=ops[:i] + ops[i + 1:])
 
 
 def nontrivial_game(case, out):
@@ -1027,24 +1332,34 @@ def describe_game(case):
 
 
 SUITES = [
-    Suite("game", gen_game, run_game, None, None, oracle_game, shrink_game, nontrivial_game,
+    Suite("game", gen_game, run_game, HDR_GAME, coq_game, oracle_game, shrink_game, nontrivial_game,
           {"quick": 300, "thorough": 5000}, describe=describe_game, case_timeout=180),
     Suite("hist", gen_hist, run_hist, HDR, coq_hist, oracle_hist, shrink_hist, nontrivial_hist,
           {"quick": 500, "thorough": 12000}, describe=describe_hist, shard=60, case_timeout=120),
 ]
 
 LEVEL_TEXT = ("Machine-checked proof (Coq) that in an executable model of flipper/autofire/kickback enable-disable, the "
-              "platform controller's rule bookkeeping (incl. PSU handlers and the software EOS repulse manager) and the "
-              "virtual platform's rule table, for every well-formed configuration and every history of "
-              "enable/disable/sw_flip/sw_release/ball-search/switch/timer/event operations the installed rules are "
-              "exactly those of the enabled devices with no key written twice, enable is idempotent, disable removes "
-              "everything, and after ball_will_end/service_mode_entered no rule of a default-wired device remains and no "
-              "flipper coil stays energised until something enables the device again; the model is tied to the working "
-              "tree by running both on the same generated histories on every run, the default event wiring is "
-              "translated from config_spec.yaml.")
-LEVEL_NOTE = ("Trusted: Coq kernel + vm_compute; no axioms. Model hand-written; differential correspondence after every "
-              "op validates it against real devices on a booted machine with the virtual platform. Other platforms' "
-              "set_*_rule/clear_hw_rule are not covered. Event priorities, delays and timed switch handlers are "
-              "modelled and validated on tie-free schedules only.")
-TECHNIQUE = "Coq proof (invariant over all histories) over hand-written executable model + translated wiring + differential correspondence (vm_compute) + direct oracle"
+              "platform controller's rule bookkeeping (PSU handlers, software EOS repulse manager) and the platform's "
+              "rule table, for every well-formed configuration and every history of enable/disable/sw_flip/sw_release/"
+              "ball-search/switch/timer/event operations: the installed rules are exactly those of the enabled devices "
+              "with no key written twice (also on a silently overwriting platform, and also for flippers that share "
+              "button and coil and are swapped by one event, because disable handlers run before enable handlers), "
+              "enable is idempotent, disable removes everything, PSU/EOS-manager handlers exist iff their rule does, a "
+              "flipper coil is energised only while its flipper is enabled; and, composed with an automaton of the game "
+              "lifecycle (game.py event order, tilt, slam tilt, service mode stopping the game without ball_will_end, "
+              "game end), for every interleaving with other operations: whenever no ball is in play no rule of a "
+              "ball-scoped (e.g. default-wired) device is installed, no re-enable is pending and no flipper coil is "
+              "energised; a tilt accepted while a ball is being run ends that ball.  Device model and lifecycle "
+              "automaton are tied to the working tree on every run by feeding the same generated histories / the "
+              "lifecycle events of real generated games to implementation and model; default wiring and event names "
+              "are translated from the source.")
+LEVEL_NOTE = ("Trusted: Coq kernel + vm_compute; no axioms. Models hand-written; differential correspondence after every "
+              "op (hist) and after every lifecycle event of real games (game) validates them. Other platforms' "
+              "set_*_rule/clear_hw_rule are not covered (only the assert / overwrite table semantics). Event "
+              "priorities, delays and timed switch handlers are modelled and validated on tie-free schedules only. The "
+              "ball search scheduler is over-approximated by arbitrary single callbacks. Known finding: a tilt accepted "
+              "between balls sticks for the next ball (modelled faithfully, theorem tilt_between_balls_sticks_refuted).")
+TECHNIQUE = ("Coq proof (invariants over all histories; lifecycle automaton x device model) over hand-written executable "
+             "models + translated wiring/event names + differential correspondence (vm_compute) on device histories and "
+             "real games + direct oracle")
 DESIGN_REF = "DESIGN.md section 3, C10"
